@@ -193,7 +193,7 @@ impl T {
     /// `sum(k)`: the last k dimensions collapsed into one unit dimension; k = 0 identity.
     pub fn sum(&self, k: usize) -> T {
         if k == 0 {
-            return self.clone();
+            return self.linear(self.d.clone(), |p| vec![(p, 1.0)]);
         }
         let lead = self.d.len() - k;
         let mut d: Vec<usize> = self.d[..lead].to_vec();
@@ -212,12 +212,8 @@ impl T {
         if numel(d) != self.len() || d.iter().any(|x| *x == 0) {
             return None;
         }
-        Some(T {
-            d: d.to_vec(),
-            v: self.v.clone(),
-            t: self.t.clone(),
-            ndir: self.ndir,
-        })
+        // rebuilt element by element (cloning nested Vecs costs CBMC the concrete lengths)
+        Some(self.linear(d.to_vec(), |p| vec![(p, 1.0)]))
     }
 
     /// Linear gather: output element p = Σ_q coef · self[q] over `terms(p)`.
@@ -277,16 +273,28 @@ pub fn matmul(a: &T, at: bool, b: &T, bt: bool, c: Option<&T>) -> Option<T> {
         if a.d[0] != b.d[0] || c.is_some() {
             return None;
         }
-        let col = T {
-            d: vec![b.d[0], 1],
-            v: b.v.clone(),
-            t: b.t.clone(),
-            ndir: b.ndir,
-        };
-        let mut r = matmul(a, false, &col, false, None)?;
-        r.d = vec![1];
-        return Some(r);
+        let mut s = 0.0;
+        let mut row = Vec::new();
+        for k in 0..a.d[0] {
+            s += a.v[k] * b.v[k];
+            if !a.t[k].is_empty() {
+                acc_row(&mut row, &a.t[k], b.v[k]);
+            }
+            if !b.t[k].is_empty() {
+                acc_row(&mut row, &b.t[k], a.v[k]);
+            }
+        }
+        return Some(T {
+            d: vec![1],
+            v: vec![s],
+            t: vec![row],
+            ndir: a.ndir,
+        });
     }
+    matmul_core(a, at, b, bt, c)
+}
+
+fn matmul_core(a: &T, at: bool, b: &T, bt: bool, c: Option<&T>) -> Option<T> {
     let (la, ar, ac) = as_matrix(&a.d);
     let (lb, br, bc) = as_matrix(&b.d);
     let (m, ka) = if at { (ac, ar) } else { (ar, ac) };
